@@ -951,7 +951,10 @@ func c28wExplore(c *mc.Check, cfg *c28wCfg, check c28wChecker, stats *c28wStats)
 				c.Broken("scenario %s: seed event %s is not enabled", cfg.Name, w.label(e))
 			}
 			if check(c, w, w.step(e, true)) {
-				w.count("seed step violated")
+				// the start state of this scenario is already inconsistent: report it once, do not search on from it
+				stats.merge(w.local)
+				w.close()
+				return mc.BFSResult{}
 			}
 		}
 		stats.merge(w.local)
